@@ -24,7 +24,8 @@ HeapValues == <<
   O(<< <<"z", JInt(1)>> >>), O(<< <<"a", JStr("x")>>, <<"class", JInt(3)>> >>), JInt(5),
   O(<< <<"a", JStr("x")>>, <<"level", JInt(2)>> >>),
   O(<< <<"a", JStr("xy")>>, <<"b", JStr("q")>> >>), O(<< <<"a", JStr("xy")>> >>),
-  JArr(<<JInt(1)>>), JArr(<<JStr("x"), JStr("y")>>), JArr(<<JInt(1), JStr("x")>>), JArr(<<JInt(1), JInt(2)>>) >>
+  JArr(<<JInt(1)>>), JArr(<<JStr("x"), JStr("y")>>), JArr(<<JInt(1), JStr("x")>>), JArr(<<JInt(1), JInt(2)>>),
+  JStr("x") >>
 
 E0 == Mk("Element", [properties |-> << Prop("a", "a", TRUE,
                                             MkComp("AllOf", << StringE, Mk("Element", [minLength |-> 1]) >>, EmptyKw)),
@@ -43,10 +44,13 @@ FKw == [minProperties |-> 0]
 (* an element that starts with an EMPTY property dictionary; it also carries tuple items with *)
 (* a schema for the items beyond the tuple                                                   *)
 N0 == Mk("Element", [properties |-> <<>>, itemsT |-> << IntegerE >>, additionalItems |-> StringE])
-Targets == {"E", "C", "D", "F", "N"}
+(* a composition whose member list is replaced during its life *)
+U0 == MkComp("AnyOf", << Mk("String", [minLength |-> 1]), IntegerE >>, EmptyKw)
+Targets == {"E", "C", "D", "F", "N", "U"}
+PropTargets == Targets \ {"U"}      \* U is a composition: no declared properties, no object keywords
 Children == {"D", "F"}
 Init == /\ heap = [x \in Targets |-> IF x = "E" THEN E0 ELSE IF x = "C" THEN C0
-                                     ELSE IF x = "N" THEN N0
+                                     ELSE IF x = "N" THEN N0 ELSE IF x = "U" THEN U0
                                      ELSE IF x = "D" THEN Merge(C0, "D", DKw, DProps)
                                      ELSE Merge(C0, "F", FKw, <<>>)]
         /\ hist = <<>>
@@ -98,12 +102,12 @@ NoOutcome == [kind |-> "none", out |-> NP]
 
 InstanceOnly == {"items", "minItems", "minimum"}   \* not class keywords: only meaningful on E
 TupleOnly == {"additionalItemsB", "additionalItems"}   \* only meaningful next to tuple items: N
-SetKeyword == \E x \in Targets, c \in SetChoices :
+SetKeyword == \E x \in PropTargets, c \in SetChoices :
   (c[1] \in InstanceOnly => x = "E") /\ (c[1] \in TupleOnly => x = "N") /\
   Step(Op("set", x, <<c[1], c[2]>>), [heap EXCEPT ![x] = SetKw(@, c[1], c[2])], NoOutcome)
 ClearKeyword == \E x \in Targets : \E kw \in DOMAIN heap[x].kw \ {"properties"} :
   Step(Op("clear", x, <<kw, 0>>), [heap EXCEPT ![x] = DelKw(@, kw)], NoOutcome)
-PutProperty == \E x \in Targets, p \in PropChoices :
+PutProperty == \E x \in PropTargets, p \in PropChoices :
   Step(Op("putprop", x, p), [heap EXCEPT ![x] = PutProp(@, p)], NoOutcome)
 DelProperty == \E x \in Targets : \E i \in 1..Len(PropsOf(heap[x])) :
   Step(Op("delprop", x, <<PropsOf(heap[x])[i].attr, 0>>),
@@ -112,8 +116,12 @@ DelProperty == \E x \in Targets : \E i \in 1..Len(PropsOf(heap[x])) :
 (* without going through __setitem__ and the property is bound to its name when the element *)
 (* is next used (the harness makes one validation call); same configuration as PutProp      *)
 UpdateChoices == { Prop("z", "z", TRUE, StringE), Prop("level_", "level", FALSE, Mk("Integer", [default |-> JInt(1)])) }
-UpdateProperty == \E x \in Targets, p \in UpdateChoices :
+UpdateProperty == \E x \in PropTargets, p \in UpdateChoices :
   Step(Op("updateprop", x, p), [heap EXCEPT ![x] = PutProp(@, p)], NoOutcome)
+(* U.elements = [...] *)
+ElemChoices == { << IntegerE >>, << Mk("String", [minLength |-> 5]), IntegerE >>, << StringE, Mk("Null", EmptyKw) >> }
+SetElements == \E es \in ElemChoices :
+  Step(Op("setelems", "U", es), [heap EXCEPT !["U"] = [@ EXCEPT !.elems = es]], NoOutcome)
 MoveProperty == \E x \in Targets : \E i \in 1..Len(PropsOf(heap[x])) :
   LET a == PropsOf(heap[x])[i].attr IN
   /\ ~HasProp(heap[x], a \o "_moved")
@@ -127,7 +135,7 @@ Validate == \E x \in Targets : \E i \in 1..Len(HeapValues) :
        [heap EXCEPT ![x] = ValidateWrites(@, HeapValues[i])],
        ValidateOutcome(heap[x], HeapValues[i]))
 
-Next == SetKeyword \/ ClearKeyword \/ PutProperty \/ UpdateProperty \/ DelProperty \/ MoveProperty \/ ToggleReq \/ Validate
+Next == SetKeyword \/ ClearKeyword \/ PutProperty \/ UpdateProperty \/ DelProperty \/ MoveProperty \/ SetElements \/ ToggleReq \/ Validate
 Spec == Init /\ [][Next]_vars
 
 (* design-level claims on the model *)
